@@ -26,9 +26,17 @@ static Plan gen_sorter(const std::string &prop, const std::string &tier, uint64_
 	if (shape == 2) std::sort(keys.begin(), keys.end(), bytes_less);
 	if (shape == 3) { std::sort(keys.begin(), keys.end(), bytes_less); std::reverse(keys.begin(), keys.end()); }
 	size_t total = 0;
+	int mfunc = r.chance(3, 5) ? MF_UNION : 1 + (int)r.below(MF_N - 1);
+	p.seti("mfunc", mfunc);
 	for (size_t i = 0; i < n; i++) {
 		size_t pad = r.chance(1, 10) ? r.below(200) : 0;
-		p.op("add", { spec_of(keys[i]), std::to_string(pad) });
+		if (mfunc == MF_UNION) p.op("add", { spec_of(keys[i]), std::to_string(pad) });
+		else {
+			Bytes v = "val"; size_t m = r.below(14); for (size_t q = 0; q < m; q++) v.push_back((char)('a' + r.below(3)));
+			if (r.chance(1, 5)) v = kg.value(60);
+			p.op("add", { spec_of(keys[i]), "0", spec_of(v) });
+			pad = v.size();
+		}
 		total += keys[i].size() + 6 + pad;
 	}
 	// memory limit: one entry per chunk ... everything in memory
@@ -69,9 +77,12 @@ static RunResult exec_sorter(const Plan &p)
 	s.outpath = dir + "/sorted.mtbl";
 	size_t i = 0;
 	std::map<Bytes, size_t> occ;
+	s.mfunc = (int)(p.geti("mfunc", 0) % MF_N);
+	res.probes[std::string("merge-func-") + "umlxs"[s.mfunc]]++;
 	for (auto &o : p.ops) if (o.name == "add") {
 		Bytes v = sorter_token(i++);
 		if (o.argi(1) > 0) { v.pop_back(); v.append((size_t)o.argi(1), '.'); v.push_back('\n'); }
+		if (s.mfunc != MF_UNION && o.a.size() > 2) v = o.argb(2);
 		s.adds.push_back({ o.argb(0), v });
 		occ[o.argb(0)]++;
 	}
